@@ -31,7 +31,8 @@ def run(ck, P):
     gs = guard_retvals(st, "(prio_flags & %d)" % HIGH, False)
     pf = [e for e in st.events() if e.kind == "assign" and S(e.lhs) == "prio_flags"]
     okp = bool(gs) and all(g.retval == -1 for g in gs) and all(has(X.facts(st, e), "(prio_flags & %d)" % HIGH, False) for e in enq)
-    okp = okp and bool(pf) and all("->src->flags" in S(e.rhs) for e in pf)
+    vs = {x for x in rules.value_sources(st, "prio_flags") if not x.lstrip("-").isdigit()}
+    okp = okp and bool(vs) and all("->src->flags" in x for x in vs)
     ck.ob("C16.1-GUARDS", st.site("HIGH refused"), okp, "priority taken from the event's source (%s), HIGH -> %s before the enqueue"
           % ([S(e.rhs) for e in pf], [g.retval for g in gs]), witness=[("drop_branch", st.unit, st.name, g.block) for g in gs])
     refd = all(strip(e.args[1]).get("callee") == "m_mem_ref" for e in enq)
